@@ -136,21 +136,21 @@ Proof.
     { rewrite Eii, Hkn. f_equal. apply Nat.mod_same. lia. }
     assert (Hlast : rnth xp (n - 1) <= x2) by (apply S1; lia).
     rewrite <- last0_rnth in Hlast.
-    set (w := hd0 xp + P - last0 xp) in *.
-    assert (Hw : 0 < w) by (unfold w; lra).
+    remember (hd0 xp + P - last0 xp) as w eqn:Ew.
+    assert (Hw : 0 < w) by lra.
     exists ((x2 - last0 xp) / w).
     rewrite Ei. cbn [fst snd]. split; [|split; [|split; [|split; [|split; [|split]]]]].
     + unfold frac. rewrite asc_flipx, asc_flipxp by exact Ha. cbn [wd fst snd].
       rewrite <- last0_rnth. rewrite <- hd0_rnth.
-      rewrite (wrapdiff_unique (hd0 xp - last0 xp) P (P / 2) w (-1)%Z HP) by (first [lra | unfold w; simpl IZR; ring]).
+      rewrite (wrapdiff_unique (hd0 xp - last0 xp) P (P / 2) w (-1)%Z HP) by (first [lra | rewrite Ew; simpl IZR; ring]).
       rewrite (wrapdiff_unique (x - last0 xp) P (P / 2) (x2 - last0 xp) m HP) by (first [lra | rewrite Hm; ring]).
       destruct (Req_EM_T w 0); [lra|]. reflexivity.
-    + apply div_bounds. unfold w. lra.
+    + apply div_bounds. lra.
     + fold n. lia.
     + replace (n - 1 + 1)%nat with n by lia. symmetry. apply Nat.mod_same. lia.
     + exists m. exact Hm.
     + intros Hc. exfalso. fold n in Hc. lia.
-    + intros _. split; [unfold w in *; lra|reflexivity].
+    + intros _. split; [lra|reflexivity].
   - (* an ordinary bin *)
     set (i := (ssr xp x2 - 1)%nat) in *.
     assert (Hi : (i + 1 < n)%nat) by (unfold i; lia).
@@ -292,11 +292,10 @@ Proof.
   pose proof PI_RGT_0 as HPI.
   assert (Htr : 0 < to_rad P) by (unfold to_rad; apply div_pos_lt; lra).
   assert (Hphi : - PI < d * to_rad P < PI).
-  { assert (E : PI = (P / 2) * to_rad P) by (unfold to_rad; field; lra).
+  { assert (E : (P / 2) * to_rad P = PI) by (unfold to_rad; field; lra).
     split.
-    - replace (- PI) with ((- (P / 2)) * to_rad P) by (rewrite E at 2; ring).
-      apply Rmult_lt_compat_r; lra.
-    - rewrite E at 2. apply Rmult_lt_compat_r; lra. }
+    - assert ((- (P / 2)) * to_rad P < d * to_rad P) by (apply Rmult_lt_compat_r; lra). lra.
+    - assert (d * to_rad P < (P / 2) * to_rad P) by (apply Rmult_lt_compat_r; lra). lra. }
   assert (Hc1 : 0 < 1 + cos (be - al)).
   { rewrite Hcos. destruct (Req_dec (cos (d * to_rad P)) (-1)) as [Em|Em]; [|pose proof (COS_bound (d * to_rad P)); lra].
     exfalso.
